@@ -59,9 +59,10 @@ def draw_io_plan(r: random.Random, knobs: dict, direction: str = "r", p_error: f
     plan = dict(bufsize=r.choice(BUFSIZES), chunks=r.randrange(1, 1 << 30) if r.random() < 0.8 else 0, fault=None)
     if mode == "errors" and r.random() < p_error:
         if direction == "r":
-            plan["fault"] = dict(kind="eio_read", at=round(r.random(), 3))
+            k = r.choice(["eio_read", "eio_read", "eio_read", "open_error"])
+            plan["fault"] = dict(kind=k, at=round(r.random(), 3))
         else:
-            k = r.choice(["eio_write", "enospc", "enospc", "close_error"])
+            k = r.choice(["eio_write", "enospc", "enospc", "close_error", "open_error"])
             plan["fault"] = dict(kind=k, at=round(r.random(), 3))
     return plan
 
@@ -261,6 +262,12 @@ class SimFS:
             raise ValueError(f"invalid mode: {mode!r}")
         if binary and encoding is not None:
             raise ValueError("binary mode doesn't take an encoding argument")
+        f = self.ctx.fault
+        if f and f["kind"] == "open_error" and not self.ctx.fired:
+            # EACCES at open(): nothing was truncated, created or read yet
+            self.ctx.fired.append("open_error")
+            self.ctx._count("open_error")
+            raise PermissionError(errno.EACCES, "simulated: permission denied", path)
         exists = path in self.files
         if m0 == "r" and not exists:
             raise FileNotFoundError(errno.ENOENT, "No such file or directory", path)
